@@ -13,7 +13,17 @@ pub struct C18;
 
 /// machine sets biased towards one aspect of the contract
 fn contract_case(bias: &'static str, zero: bool) -> BoxedStrategy<SimCase> {
+    contract_case_on(bias, zero, false)
+}
+
+/// `grid`: machines with constant timeouts/durations on a millisecond grid, traces and delays on the
+/// same grid, so that expiries, firings, cancels and packets fall on the same instants
+fn contract_case_on(bias: &'static str, zero: bool, grid: bool) -> BoxedStrategy<SimCase> {
     let mut mp = sim_machine_params(zero);
+    if grid {
+        mp.dist = crate::gen::DistProfile::Grid;
+        mp.prob_style = 0;
+    }
     match bias {
         "blocking" => {
             mp.kind_weights = [1, 4, 6, 1];
@@ -28,9 +38,14 @@ fn contract_case(bias: &'static str, zero: bool) -> BoxedStrategy<SimCase> {
             mp.kind_weights = [3, 5, 4, 1];
         }
     }
+    let (tr, dl) = if grid {
+        (grid_trace(30), proptest::sample::select(vec![0u64, 1_000_000, 2_000_000, 5_000_000]).boxed())
+    } else {
+        (trace(40), delay())
+    };
     (
-        trace(40),
-        delay(),
+        tr,
+        dl,
         sim_machines(3, &mp),
         sim_machines(3, &mp),
         sim_fracs(),
@@ -90,11 +105,14 @@ impl Prop for C16 {
     const RULE: &'static str = "case = trace (1..=40 lines) x delay x 0..=3 machines per side biased to BlockOutgoing (all four bypass/replace combinations) and SendPadding, light distributions (timeouts from 0; durations from 1 us in profile 'blocking', from 0 in profile 'zero') x fractions x seed, iteration-bounded, unfiltered. Non-trivial: a blocking period that held a queued packet (TunnelSent released at the BlockingEnd instant) or that a second action updated. Distinct = hash of the case.";
     fn profiles(tier: Tier) -> Vec<Profile> {
         match tier {
-            Tier::Quick => vec![prof("blocking", 36_000), prof("zero", 18_000)],
-            Tier::Thorough => vec![prof("blocking", 450_000), prof("zero", 200_000)],
+            Tier::Quick => vec![prof("blocking", 36_000), prof("zero", 18_000), prof("grid", 30_000)],
+            Tier::Thorough => vec![prof("blocking", 450_000), prof("zero", 200_000), prof("grid", 400_000)],
         }
     }
     fn strategy(profile: &str) -> BoxedStrategy<SimCase> {
+        if profile == "grid" {
+            return contract_case_on("blocking", true, true);
+        }
         contract_case("blocking", profile == "zero")
     }
     fn check(c: &SimCase, obs: &mut Obs) -> Result<(), Failure> {
@@ -142,11 +160,14 @@ impl Prop for C17 {
     const RULE: &'static str = "case = trace x delay x 0..=3 machines per side biased to SendPadding/BlockOutgoing with timeouts from 0 upwards, re-issued before they fire, and Cancel actions of each timer kind x fractions x seed, iteration-bounded, unfiltered. Non-trivial: a run in which an action was superseded or cancelled before firing and another one fired. Distinct = hash of the case.";
     fn profiles(tier: Tier) -> Vec<Profile> {
         match tier {
-            Tier::Quick => vec![prof("actions", 36_000), prof("zero", 18_000)],
-            Tier::Thorough => vec![prof("actions", 450_000), prof("zero", 200_000)],
+            Tier::Quick => vec![prof("actions", 36_000), prof("zero", 18_000), prof("grid", 30_000)],
+            Tier::Thorough => vec![prof("actions", 450_000), prof("zero", 200_000), prof("grid", 400_000)],
         }
     }
     fn strategy(profile: &str) -> BoxedStrategy<SimCase> {
+        if profile == "grid" {
+            return contract_case_on("actions", true, true);
+        }
         contract_case("actions", profile == "zero")
     }
     fn check(c: &SimCase, obs: &mut Obs) -> Result<(), Failure> {
@@ -184,11 +205,14 @@ impl Prop for C18 {
     const RULE: &'static str = "case = trace x delay x 0..=3 machines per side biased to UpdateTimer (both replace settings, durations from 1 us in profile 'timers', from 0 in profile 'zero') and Cancel x fractions x seed, iteration-bounded, unfiltered. Non-trivial: a run with a non-replace update that did not change the timer, one that did, and a TimerEnd. Distinct = hash of the case.";
     fn profiles(tier: Tier) -> Vec<Profile> {
         match tier {
-            Tier::Quick => vec![prof("timers", 36_000), prof("zero", 18_000)],
-            Tier::Thorough => vec![prof("timers", 450_000), prof("zero", 200_000)],
+            Tier::Quick => vec![prof("timers", 36_000), prof("zero", 18_000), prof("grid", 30_000)],
+            Tier::Thorough => vec![prof("timers", 450_000), prof("zero", 200_000), prof("grid", 400_000)],
         }
     }
     fn strategy(profile: &str) -> BoxedStrategy<SimCase> {
+        if profile == "grid" {
+            return contract_case_on("timers", true, true);
+        }
         contract_case("timers", profile == "zero")
     }
     fn check(c: &SimCase, obs: &mut Obs) -> Result<(), Failure> {
